@@ -1215,6 +1215,28 @@ impl Visitor<Diagnostic> for LibraryRenderer {
         Ok(())
     }
 
+    // 3.3.2
+    fn visit_stmt_kind(
+        &mut self,
+        node: &dsl::textual::StmtKind,
+    ) -> Result<Self::Value, Diagnostic> {
+        match node {
+            dsl::textual::StmtKind::Return => {
+                self.write_ws("RETURN");
+                self.write_ws(";");
+                self.newline();
+                Ok(())
+            }
+            dsl::textual::StmtKind::Exit => {
+                self.write_ws("EXIT");
+                self.write_ws(";");
+                self.newline();
+                Ok(())
+            }
+            _ => node.recurse_visit(self),
+        }
+    }
+
     // 3.3.2.1
     fn visit_assignment(
         &mut self,
